@@ -40,7 +40,7 @@ func (s *Scenario) SubmitGen(g *Gen) error {
 	var first error
 	got := false
 	for i, r := range w.Replicas {
-		if !r.Alive {
+		if !r.Alive || r.Observer {
 			continue
 		}
 		if i > 0 && s.R.Intn(100) < s.PartialPct {
